@@ -498,6 +498,7 @@ const guardLimit = 8 << 30
 const runawayWhy = "the decode does not terminate: it allocates without bound (heap above 8 GiB while this input was being decoded)"
 
 func run(r *chk.Run) {
+	e2.RunTwoStreamsFirst(r)
 	seed := r.Seed
 	buffers(seed)
 	if why := rowdec.SelfTest(); why != "" {
@@ -651,7 +652,6 @@ func run(r *chk.Run) {
 	e2.RunNullEmptyAbsent(r)
 	e2.RunScale(r, "wide-table")
 	e2.RunSchemaChange(r)
-	e2.RunNested(r)
 	e2.RunPartialImages(r)
 	r.SetExhaustive(true)
 }
